@@ -19,7 +19,7 @@ ASSUMPTIONS = [
 ]
 OUTSIDE = ["IEEE evaluation order / rounding", "ids outside the embedding"]
 RULE = "one path per id pattern (solver-enumerated) with all parameters symbolic; in the symbolic-id configurations ids are merged into ite-chains (negative-index wrap-around included)."
-BUDGET_S = {"quick": 200, "thorough": 1500}
+BUDGET_S = {"quick": 600, "thorough": 3000}
 PROVE_TIMEOUT_MS = 120000
 
 
